@@ -158,7 +158,7 @@ fn check_cfg(ctx: &Ctx, cfg: &Cfg, dp: usize, stretch_len: usize) -> JobOut {
             // flat from the very first input at extreme magnitudes (with an active prefix of ordinary size the
             // squares of the jump overflow f64, which is not a flat-window matter)
             let extreme: Vec<f64> = if pre.is_empty() { vec![1e200, 1e-200, 1e300] } else { vec![] };
-            for (&level, via, cross) in levels.iter().chain(extreme.iter()).flat_map(|l| [(l, Via::Plain, false), (l, Via::Serde, false), (l, Via::Clone, false), (l, Via::CloneFromUsed, false), (l, Via::CloneFromBigger, false), (l, Via::Plain, true)]) {
+            for (&level, via, cross) in levels.iter().chain(extreme.iter()).flat_map(|l| [(l, Via::Plain, false), (l, Via::Serde, false), (l, Via::Clone, false), (l, Via::CloneFromUsed, false), (l, Via::CloneFromBigger, false), (l, Via::Chain, false), (l, Via::Plain, true)]) {
                 // via: the instance is serialized + restored / replaced by its clone between prefix and
                 // stretch (short prefixes only)
                 if via != Via::Plain && pre.len() > 1 {
